@@ -20,6 +20,7 @@ func init() {
 	zzsv.Register("ZZ_C01_Binary", ZZ_C01_Binary)
 	zzsv.Register("ZZ_C01_Unary", ZZ_C01_Unary)
 	zzsv.Register("ZZ_C01_Nested", ZZ_C01_Nested)
+	zzsv.Register("ZZ_C01_LiteralPool", ZZ_C01_LiteralPool)
 }
 
 var zzBinOps = []string{"+", "-", "*", "/", "%", "**", "<", "<=", ">", ">=", "==", "!=", "~=", "!~", "in", ".."}
@@ -343,4 +344,55 @@ func ZZ_C01_Nested(sv *zzsv.T) {
 	default:
 		sv.Reach("C01.nested.unspec")
 	}
+}
+
+// ZZ_C01_LiteralPool: literals keep their own type and value whatever other
+// literals the script contains. An integer literal that is symbolic in
+// [0, 70000] (so on both sides of the inline limit) is evaluated next to
+// float, string and regexp literals whose printed forms the solver can make
+// it coincide with.
+func ZZ_C01_LiteralPool(sv *zzsv.T) {
+	others := []string{"70000.0", "65535.0", "\"70000\"", "\"65535\"", "/70000/", "1.5", "\"1.5\"", "\"abc\"", "/abc/", "3.0"}
+	o1 := others[sv.Choice("other1", len(others))]
+	forms := []string{
+		"u = OTHER; return 7001 / 3;",
+		"u = OTHER; return 7001 + 1;",
+		"u = OTHER; v = 7001; return v == 7001;",
+		"u = [OTHER, 7001]; return u[1] * 2;",
+		"u = 7001; v = OTHER; return u - 1;",
+	}
+	f := sv.Choice("form", len(forms))
+	src := ""
+	for i := 0; i < len(forms[f]); i++ {
+		if i+5 <= len(forms[f]) && forms[f][i:i+5] == "OTHER" {
+			src += o1
+			i += 4
+		} else {
+			src += string(forms[f][i])
+		}
+	}
+	sv.Note("script", src+"   (7001 is a symbolic literal)")
+	l := sv.Int64("L")
+	sv.Assume(l >= 0)
+	sv.Assume(l <= 70000)
+	prog, ok := zzParseWithLits(sv, src, []int64{l})
+	sv.Assume(ok)
+	e := New(src)
+	sv.Assume(zzPrepareAST(e, prog, sv.Choice("noopt", 2) == 0) == nil)
+	out, err := e.Execute(nil)
+	zzDescribe(sv, "result", out, err)
+	var want zv
+	switch f {
+	case 0:
+		want = zInt(l / 3)
+	case 1:
+		want = zInt(l + 1)
+	case 2:
+		want = zBool(true)
+	case 3:
+		want = zInt(l * 2)
+	default:
+		want = zInt(l - 1)
+	}
+	sv.Assert("C01.literalpool", err == nil && zzSame(sv, out, want))
 }
